@@ -54,7 +54,10 @@ def _add(rep, name, evs, v):
     classes = {}
     for f in v["fails"]:
         i = info.get(f["tid"], {})
+        e = by_tid.get(f["tid"], {})
         cls = "+".join(sorted(f["fail"])) + (":" + ",".join(sorted(i.get("conds", []))) if i.get("conds") else "")
+        if e.get("src") == "gen":
+            cls += "@" + e["key"].split(":")[1]          # the generator family of the input
         classes.setdefault(cls, []).append(f)
     kept = []
     summary = {}
@@ -73,7 +76,7 @@ def _add(rep, name, evs, v):
     rep.notes["traces"][name]["fails"] = len(v["fails"])
 
 
-def _selftest_events(defs, lib):
+def _selftest_events(defs, lib, hist):
     """Binding self-test: real events with ONE recorded field corrupted; the trace specification must reject each with the clause named."""
     bad = []
     B = ["tc", "bool", []]
@@ -86,6 +89,14 @@ def _selftest_events(defs, lib):
             c["parsed"]["prop"][2] = ["comb", ["const", "neg", ["tc", "fun", [B, B]]], ["const", c["parsed"]["name"], B]]
             c["ext_thms"] = []
             bad.append((c, "SyntacticOK"))
+            n += 1
+    n = 0
+    for e in hist:
+        if (e["kind"] == "item" and e["installed"] and e["isdefn"] and e["declared_before"]["ov"] and not e["prior_insts"]
+                and e["cand"]["step"] == 0 and n < 3):
+            c = copy.deepcopy(e)
+            c["prior_insts"] = [c["newconst"]["T"]]             # the same instance is recorded as introduced before
+            bad.append((c, "NewConst"))
             n += 1
     n = 0
     for e in lib:
@@ -112,9 +123,12 @@ def run(rep, tier):
                 "variables / repeated variables / constants / applications, partial application, rhs = every well-typed term of depth <= 2 "
                 "over the arguments, extra free and schematic variables, logical constants, the defined constant itself, other instances of an "
                 "overloaded name, closed polymorphic formulas; names new / overloaded / already declared) to the theory machine and emits all of "
-                "them; each is printed, parsed by items.parse_item and installed. Plus %d seeded random larger candidates in theory nat, "
+                "them; each is printed, parsed by items.parse_item and installed; every HISTORY of two (thorough: three) definitions of one name at equal / "
+                "more general / crossing / disjoint instance types is offered item by item to one growing theory. Plus %d seeded random larger candidates in theory nat, "
                 "generated datatypes (<= 3 constructors; uniform and NON-uniform recursion: other instances, swapped / identified parameters, "
-                "nested in fun / list / pair / itself; arity 0-2) with functions / predicates over them, and every item of %s library files with "
+                "nested in fun / list / pair / itself; arity 0-2; constructor types disagreeing with the declared parameters) with functions / predicates "
+                "over them, statements and rules of every type as axioms / theorems / introduction rules, histories of items about one name "
+                "(overloaded instances, redefinition after a derived fact, different kinds of item), and every item of %s library files with "
                 "export_json and get_display/parse_edit round trips. Non-trivial = item accepted and installed (clauses evaluated on the "
                 "parsed object and its extensions) or a round trip compared; distinct by full event content."
                 % (nrand, "7 sampled" if quick else "all 43"))
@@ -140,14 +154,15 @@ def run(rep, tier):
     # ---- design level
     cfg = "C11_Items_small.cfg" if quick else "C11_Items_deep.cfg"
     vec = wd / "vectors.ndjson"
-    r = model_check("C11_Items", cfg, wd=wd / "mc", workers=1, env={"VECTOR_FILE": vec}, timeout=7200, xmx="6g")
+    hist, ev_hist = wd / "histories.ndjson", wd / "hist.ndjson"
+    r = model_check("C11_Items", cfg, wd=wd / "mc", workers=1, env={"VECTOR_FILE": vec, "HIST_FILE": hist}, timeout=7200, xmx="6g")
     rep.add_mc("C11_Items", r, cfg)
     if r.violated:
         rep.design_violation("C11_Items", r)
         for f in futs:
             f.result()
         return
-    require(vec.exists(), "C11_Items did not emit vectors")
+    require(vec.exists() and hist.exists(), "C11_Items did not emit vectors / histories")
     rep.exhaustive = True
     vs = read_events(vec)
     nv = len(vs)
@@ -162,7 +177,14 @@ def run(rep, tier):
     shards = _split_lines(vec, 2, wd, "vec")
     outs = [wd / ("defs_%d.ndjson" % i) for i in range(len(shards))]
     dfuts = [pool.submit(run_driver, "c11", ["defs", a, b] + (["named"] if k == 0 else [])) for k, (a, b) in enumerate(zip(shards, outs))]
-    menv = {"VECTOR_FILE": wd / "mutant_vectors.ndjson"}
+    dfuts.append(pool.submit(run_driver, "c11", ["hist", hist, ev_hist]))
+    hs = read_events(hist)
+    rep.notes["histories"] = {"histories": len(hs), "steps": sum(len(h["steps"]) for h in hs),
+                              "later_step_refused": sum(1 for h in hs if any(not st["accept"] for st in h["steps"][1:])),
+                              "all_steps_accepted": sum(1 for h in hs if all(st["accept"] for st in h["steps"]))}
+    require(len(hs) >= 150 and rep.notes["histories"]["later_step_refused"] >= 50 and rep.notes["histories"]["all_steps_accepted"] >= 30,
+            "C11_Items: too few histories (vacuity guard): %s" % rep.notes["histories"])
+    menv = {"VECTOR_FILE": wd / "mutant_vectors.ndjson", "HIST_FILE": wd / "mutant_histories.ndjson"}
     full = "SyntacticOK(d) == ArgsDistinctVars(d) /\\ NoExtraFree(d) /\\ NoExtraTVars(d) /\\ NoSelfOverlap(d)"
     spec_mutant(rep, "no_self_occurrence_condition", "C11_Items", "C11_Items_tiny.cfg",
                 [("C11_Def.tla", full, full.replace(" /\\ NoSelfOverlap(d)", ""))], ["ConservativeIfOK"], wd=wd, workers=1, env=menv)
@@ -176,6 +198,8 @@ def run(rep, tier):
         spec_mutant(rep, "overlap_means_equal_type", "C11_Items", "C11_Items_tiny_exam.cfg",
                     [("C11_Def.tla", "c[2] = d.name => ~Overlaps(c[3], d.T)", "c[2] = d.name => c[3] # d.T")],
                     ["AllExaminable"], wd=wd, workers=1, env=menv)
+        spec_mutant(rep, "new_name_ignores_earlier_instances", "C11_Items", "C11_Items_tiny.cfg",
+                    [("C11_Items.tla", "/\\ \\A p \\in dcl.insts : ~Overlaps(p, x.T)", "")], ["UniqueGround"], wd=wd, workers=1, env=menv)
         spec_mutant(rep, "extension_forgets_constant", "C11_Items", "C11_Items_tiny.cfg",
                     [("C11_Items.tla", "consts |-> ExtConsts(t, x), thms", "consts |-> t.consts, thms")], ["AddedWellTyped"],
                     wd=wd, workers=1, env=menv)
@@ -183,7 +207,7 @@ def run(rep, tier):
         f.result()
     pool.shutdown()
     # ---- code -> spec: ONE trace (sources + self-test events), validated in parallel chunks; verdicts split back per source
-    sources = [("defs", outs), ("rand", [ev_rand]), ("gen", [ev_gen]), ("library", [ev_lib])]
+    sources = [("defs", outs), ("hist", [ev_hist]), ("rand", [ev_rand]), ("gen", [ev_gen]), ("library", [ev_lib])]
     evs, tid = {}, 0
     for name, paths in sources:
         evs[name] = []
@@ -192,8 +216,8 @@ def run(rep, tier):
                 tid += 1
                 e["tid"] = tid
                 evs[name].append(e)
-    st = _selftest_events(evs["defs"], evs["library"])
-    require(len(st) >= 7, "C11: could not build the binding self-test events")
+    st = _selftest_events(evs["defs"], evs["library"], evs["hist"])
+    require(len(st) >= 10, "C11: could not build the binding self-test events")
     for k, (c, _) in enumerate(st):
         c["tid"] = 10 ** 7 + k
     allp = wd / "events.ndjson"
@@ -203,7 +227,7 @@ def run(rep, tier):
     missed = [(c["tid"], cl) for c, cl in st if cl not in flagged.get(c["tid"], [])]
     require(not missed, "self-test: %s accepted corrupted events %s" % (TSPEC, missed))
     rep.notes["selftests"] = [{"spec": TSPEC, "corrupted_events": sum(1 for _, c2 in st if c2 == cl), "all_rejected_with": cl}
-                              for cl in ("SyntacticOK", "ExtOK", "RoundTrip_edit")]
+                              for cl in ("SyntacticOK", "NewConst", "ExtOK", "RoundTrip_edit")]
     for name, _ in sources:
         tids = {e["tid"] for e in evs[name]}
         vn = {"consumed": len(tids), "fails": [f for f in v["fails"] if f["tid"] in tids],
@@ -225,6 +249,15 @@ def run(rep, tier):
             "C11: too few accepted items examined (vacuity guard): %s" % t)
     require(rep.notes["library"]["definitions"] >= (5 if quick else 140) and rep.notes["library"]["round_trips"] >= (400 if quick else 7000),
             "C11: too few library items examined (vacuity guard): %s" % rep.notes["library"])
+    gk = {}
+    for e in evs["gen"]:
+        if e["kind"] == "item":
+            tag = e["key"].split(":")[1]
+            gk[tag] = gk.get(tag, 0) + 1
+    rep.notes["generated_items"] = gk
+    require(t["hist"]["nontrivial"] >= 150 and gk.get("datatype_mm", 0) >= 10 and gk.get("stmt", 0) >= 30 and gk.get("rule", 0) >= 12
+            and gk.get("hist_kk", 0) >= 100 and gk.get("hist_redef", 0) >= 15 and gk.get("hist_kinst", 0) >= 40,
+            "C11: too few histories / statements / rules / mismatched datatypes examined (vacuity guard): %s %s" % (t["hist"], gk))
     n_nu = sum(1 for e in evs["gen"] if e["kind"] == "item" and e["key"].startswith("gen:datatype_nu:") and e["installed"])
     rep.notes["generated_datatypes"] = {"installed": sum(1 for e in evs["gen"] if e["kind"] == "item" and e["ty"] == "type.ind" and e["installed"]),
                                         "with_non_uniform_recursion_or_arity_2": n_nu}
@@ -251,6 +284,9 @@ def replay(path):
     elif src == "named":
         write_events(wd / "vec.ndjson", [])
         run_driver("c11", ["defs", wd / "vec.ndjson", out, "named"])
+    elif src == "hist":
+        write_events(wd / "hist.ndjson", [{"steps": e["cand"]["history"]}])
+        run_driver("c11", ["hist", wd / "hist.ndjson", out])
     elif src == "rand":
         run_driver("c11", ["rand", e["cand"]["idx"] + 1, out, seed()])
     elif src == "gen":
